@@ -30,6 +30,12 @@ fn gen_completion_full(rng: &mut Rng) -> Sexp {
     let inputs = x::completion_inputs(rng, &program);
     l(vec![conv::program(&program), l(inputs.iter().map(conv::pred).collect())])
 }
+/// small arithmetic-free programs (the fragment on which `sem_fages` is exact on a finite window)
+fn gen_completion_small(rng: &mut Rng) -> Sexp {
+    let program = x::small_program(rng);
+    let inputs = x::small_inputs(rng, &program);
+    l(vec![conv::program(&program), l(inputs.iter().map(conv::pred).collect())])
+}
 fn run_completion_full(e: &Sexp) -> R<Sexp> {
     match e.as_list()? {
         [p, ins] => {
@@ -97,6 +103,10 @@ fn gen_external_full(rng: &mut Rng) -> Sexp {
     }
 }
 
+fn gen_external_small(rng: &mut Rng) -> Sexp {
+    x::task_sexp(&x::small_task(rng))
+}
+
 fn decompose_sexp(task: ExternalEquivalenceTask) -> Sexp {
     match task.decompose() {
         Ok(w) => tagged("ok", vec![tagged("warnings", w.warnings.iter().map(ext_warning).collect()), t::problems(&w.data)]),
@@ -130,6 +140,8 @@ fn run_external_full(e: &Sexp) -> R<Sexp> {
 pub fn ops() -> Vec<Op> {
     vec![
         Op { name: "tau_star_completion_full", generate: gen_completion_full, run: run_completion_full },
+        Op { name: "tau_star_completion_small", generate: gen_completion_small, run: run_completion_full },
         Op { name: "external_decompose_full", generate: gen_external_full, run: run_external_full },
+        Op { name: "external_decompose_small", generate: gen_external_small, run: run_external_full },
     ]
 }
